@@ -396,6 +396,7 @@ pub fn generate(seed: u64, profile: Profile, buggify: bool, n_foreign: usize) ->
     let foreign = if n_foreign > 0 { gen_foreign(&mut rng, n_foreign) } else { Vec::new() };
     let mut case = Case { names, policy, knobs, foreign, probe_seed: rng.next_u64(), ops: Vec::new() };
     let mut driver = Driver::new(&case);
+    driver.lenient = profile == Profile::IdleQueues;
     let mut g = Gen::new(cfg.clone(), rng.fork(1));
     let first = Op::Restart { policy: None };
     case.ops.push(first.clone());
